@@ -298,4 +298,6 @@ def run(res, tier):
     import argslice
     for nm, fl in (("limit_v4_len", "--limit-v4-len"), ("limit_v6_len", "--limit-v6-len")):
         argslice.check_cli_number(res, E, mprop, nm, fl, True, "VRPs are then filtered against another prefix length than the operator gave")
+    for nm, fl in (("enable_bgpsec", "--enable-bgpsec"), ("enable_aspa", "--enable-aspa")):
+        argslice.check_cli_flag(res, E, mprop, nm, fl, "router keys / ASPAs are then served or withheld against the operator's setting")
     mprop.finish_engine(res, E)
